@@ -1,6 +1,8 @@
 import GeoVerif.Model.Geocentric
 import GeoVerif.Spec.RealInst
 import GeoVerif.Proofs.Vermeille
+import GeoVerif.Proofs.Geocentric
+import GeoVerif.Proofs.GeocentricFrame
 import Mathlib.Tactic.Ring
 import Mathlib.Tactic.LinearCombination
 import Mathlib.Tactic.FieldSimp
@@ -254,7 +256,8 @@ theorem vermK_oblate_spec (a f p q : ℝ) (hf0 : 0 < f) (hf1 : f < 1) (hp : 0 < 
 **Geocentric `Reverse` inverts `Forward` on the general (Vermeille–Cardano) branch.**  Oblate ellipsoid `0 < f < 1`,
 a point off the axis and off the equatorial plane, not in the far field (`h ≤ maxrad`), non-negative discriminant
 (every point outside the evolute): the forward image of the computed `(sin φ, cos φ, sin λ, cos λ, h)` is the
-point itself.  (Trigonometric branch `disc < 0`, prolate case and the limiting branches: correspondence only.)
+point itself.  (Kept from the first deepening round; `reverse_closes` below covers every branch below the far-field threshold:
+trigonometric branch, prolate, sphere, axis, equatorial plane, singular disc / segment.)
 -/
 theorem reverse_general_closes (a f maxrad X Y Z : ℝ) (ha : 0 < a) (hf0 : 0 < f) (hf1 : f < 1)
     (hXY : X ≠ 0 ∨ Y ≠ 0) (hZ : Z ≠ 0)
@@ -333,5 +336,307 @@ example : forward (⟨1, 1/2⟩ : Ell ℝ) (reverse (⟨1, 1/2⟩ : Ell ℝ) 10 
   reverse_general_closes 1 (1/2) 10 1 0 1 (by norm_num) (by norm_num) (by norm_num) (Or.inl one_ne_zero) one_ne_zero
     (by rw [show ((1:ℝ) ^ 2 + 0 ^ 2) = 1 by norm_num, Real.sqrt_one, not_lt, Real.sqrt_le_iff]; norm_num)
     (by simp only []; rw [show ((1:ℝ) ^ 2 + 0 ^ 2) = 1 by norm_num, Real.sqrt_one]; norm_num)
+
+/-! ## Deepening (round G07): every branch of `IntReverse` -/
+open GeoVerif.GeocentricProofs
+
+/-- **(a) trigonometric branch of the resolvent cubic** (`disc < 0`, which forces `r < 0`):
+`u = r(1 + 2cos(atan2(√−disc, −(S + r³))/3))` is the root of `u³ − 3r u² = 2S` in `(3r, 0)` -/
+theorem vermU_trig_spec (S r : ℝ) (hS : 0 < S) (hdisc : S * (2 * r ^ 3 + S) < 0) :
+    (vermU S r) ^ 3 - 3 * r * (vermU S r) ^ 2 = 2 * S ∧ 3 * r < vermU S r ∧ vermU S r < 0 :=
+  vermU_trig S r hS hdisc
+
+/-- non-vacuity: `S = 1/100`, `r = −1` is in the trigonometric branch -/
+example : (0:ℝ) < 1 / 100 ∧ (1 / 100 : ℝ) * (2 * (-1) ^ 3 + 1 / 100) < 0 := by norm_num
+
+/-- **where the code takes the trigonometric branch**: with `S = e⁴pq/4`, `r = (p + q − e⁴)/6` and `p, q > 0` the
+discriminant `S(2r³ + S)` is negative exactly strictly inside the evolute (astroid) `p^⅓ + q^⅓ < (e⁴)^⅓`, written
+polynomially as `27 e⁴ p q < (e⁴ − p − q)³` -/
+theorem trig_branch_domain (e4 p q : ℝ) (he : 0 < e4) (hp : 0 < p) (hq : 0 < q) :
+    e4 * p * q / 4 * (2 * ((p + q - e4) / 6) ^ 3 + e4 * p * q / 4) < 0 ↔ 27 * e4 * p * q < (e4 - p - q) ^ 3 := by
+  have hS : 0 < e4 * p * q / 4 := by positivity
+  have e : 2 * ((p + q - e4) / 6) ^ 3 + e4 * p * q / 4 = (27 * e4 * p * q - (e4 - p - q) ^ 3) / 108 := by ring
+  rw [e]
+  constructor
+  · intro h
+    have := (pos_iff_neg_of_mul_neg h).mp hS
+    linarith
+  · intro h
+    exact mul_neg_of_pos_of_neg hS (by linarith)
+
+/-- non-vacuity: `e⁴ = 1`, `p = q = 1/100` lies inside the evolute -/
+example : (27:ℝ) * 1 * (1 / 100) * (1 / 100) < (1 - 1 / 100 - 1 / 100) ^ 3 := by norm_num
+
+/-- **(a)+(b) Vermeille's `k` in every case the general branch is entered with**, oblate and prolate: for `e² ≠ 0`,
+`p, q ≥ 0` (the swapped pair of the code) and `¬(e⁴q = 0 ∧ r ≤ 0)` — both signs of the discriminant, `p = 0` (a point
+of the axis resp. the equatorial plane) and `q = 0, r > 0` included — the pair returned by `vermK` is `(k, k + e²)`
+(oblate) resp. `(k − e², k)` (prolate) with `k > 0` the root of `p/(k + |e²|)² + q/k² = 1` -/
+theorem vermK_spec (a f p q : ℝ) (he : f * (2 - f) ≠ 0) (hp : 0 ≤ p) (hq : 0 ≤ q)
+    (hbr : ¬ ((f * (2 - f)) ^ 2 * q = 0 ∧ (p + q - (f * (2 - f)) ^ 2) / 6 ≤ 0)) (prolate : Bool) :
+    let kk := vermK (⟨a, f⟩ : Ell ℝ) p q ((p + q - (f * (2 - f)) ^ 2) / 6) prolate
+    let k := if prolate then kk.2 else kk.1
+    0 < k ∧ kk = (if prolate then k - f * (2 - f) else k, if prolate then k else k + f * (2 - f)) ∧
+    p / (k + |f * (2 - f)|) ^ 2 + q / k ^ 2 = 1 := by
+  intro kk k
+  obtain ⟨h1, h2⟩ := vermKk_spec (f * (2 - f)) p q he hp hq hbr
+  have hkk : kk = _ := vermK_real a f p q ((p + q - (f * (2 - f)) ^ 2) / 6) prolate
+  cases prolate
+  · have hk : k = vermKk (f * (2 - f)) p q ((p + q - (f * (2 - f)) ^ 2) / 6) := by
+      show (if false = true then kk.2 else kk.1) = _
+      rw [hkk]; rfl
+    rw [hk]; exact ⟨h1, hkk, h2⟩
+  · have hk : k = vermKk (f * (2 - f)) p q ((p + q - (f * (2 - f)) ^ 2) / 6) := by
+      show (if true = true then kk.2 else kk.1) = _
+      rw [hkk]; rfl
+    rw [hk]; exact ⟨h1, hkk, h2⟩
+
+/-- non-vacuity of `vermK_spec` in the prolate, trigonometric case: `f = −1` (`e² = −3`), `p = q = 1/100` -/
+example : ((-1:ℝ) * (2 - -1) ≠ 0) ∧ ¬ (((-1:ℝ) * (2 - -1)) ^ 2 * (1 / 100) = 0 ∧ (1 / 100 + 1 / 100 - ((-1:ℝ) * (2 - -1)) ^ 2) / 6 ≤ 0) := by
+  constructor <;> norm_num
+
+theorem nested_norm (X Y Z : ℝ) : Real.sqrt (Real.sqrt (X ^ 2 + Y ^ 2) ^ 2 + Z ^ 2) = Real.sqrt (X ^ 2 + Y ^ 2 + Z ^ 2) := by
+  rw [Real.sq_sqrt (by positivity)]
+
+/--
+**(a)–(d) `IntReverse` inverts `IntForward` in every branch below the far-field threshold.**  For every ellipsoid
+(`a > 0`, `f < 1`: oblate, prolate, sphere) and every point `(X, Y, Z)` with `|P| ≤ maxrad` — general position on either
+side of the evolute (Cardano and trigonometric branch), the rotation axis, the equatorial plane, the centre, the sphere
+branch, and inside the singular disc (oblate) / singular segment (prolate) where the limiting formulas are used — the
+forward image of the computed `(sin φ, cos φ, sin λ, cos λ, h)` is the point itself.
+-/
+theorem reverse_closes (a f maxrad X Y Z : ℝ) (ha : 0 < a) (hf : f < 1)
+    (hmax : ¬ maxrad < Real.sqrt (X ^ 2 + Y ^ 2 + Z ^ 2)) :
+    let E : Ell ℝ := ⟨a, f⟩
+    let rv := reverse E maxrad X Y Z
+    forward E rv.sphi rv.cphi rv.slam rv.clam rv.h = (X, Y, Z) := by
+  intro E rv
+  rw [← nested_norm] at hmax
+  obtain ⟨hm, hsl, hcl⟩ := reverse_facts a f maxrad X Y Z ha hf hmax
+  obtain ⟨_, hcx, hcy⟩ := lon_part X Y
+  show forward (⟨a, f⟩ : Ell ℝ) (reverse (⟨a, f⟩ : Ell ℝ) maxrad X Y Z).sphi _ _ _ _ = _
+  rw [forward_real, hm.clR, hm.clZ, hsl, hcl]
+  exact Prod.ext hcx (Prod.ext hcy rfl)
+
+/-- non-vacuity, trigonometric branch: `a = 1`, `f = 1/2` (`e⁴ = 9/16`), the point `(1/10, 0, 1/10)` has
+`p = 1/100`, `q = 1/400`, inside the evolute -/
+example : (27:ℝ) * (9 / 16) * (1 / 100) * (1 / 400) < (9 / 16 - 1 / 100 - 1 / 400) ^ 3 := by norm_num
+example : forward (⟨1, 1/2⟩ : Ell ℝ) (reverse (⟨1, 1/2⟩ : Ell ℝ) 10 (1/10) 0 (1/10)).sphi (reverse (⟨1, 1/2⟩ : Ell ℝ) 10 (1/10) 0 (1/10)).cphi
+    (reverse (⟨1, 1/2⟩ : Ell ℝ) 10 (1/10) 0 (1/10)).slam (reverse (⟨1, 1/2⟩ : Ell ℝ) 10 (1/10) 0 (1/10)).clam
+    (reverse (⟨1, 1/2⟩ : Ell ℝ) 10 (1/10) 0 (1/10)).h = (1/10, 0, 1/10) :=
+  reverse_closes 1 (1/2) 10 (1/10) 0 (1/10) (by norm_num) (by norm_num)
+    (by rw [not_lt, Real.sqrt_le_iff]; norm_num)
+/-- non-vacuity, prolate, inside the singular segment: `a = 1`, `f = −1`, the point `(0, 0, 1)` (`|Z| ≤ a|e²|/(1−f) = 3/2`) -/
+example : forward (⟨1, -1⟩ : Ell ℝ) (reverse (⟨1, -1⟩ : Ell ℝ) 10 0 0 1).sphi (reverse (⟨1, -1⟩ : Ell ℝ) 10 0 0 1).cphi
+    (reverse (⟨1, -1⟩ : Ell ℝ) 10 0 0 1).slam (reverse (⟨1, -1⟩ : Ell ℝ) 10 0 0 1).clam (reverse (⟨1, -1⟩ : Ell ℝ) 10 0 0 1).h = (0, 0, 1) :=
+  reverse_closes 1 (-1) 10 0 0 1 (by norm_num) (by norm_num) (by rw [not_lt, Real.sqrt_le_iff]; norm_num)
+/-- non-vacuity, the centre of a sphere -/
+example : forward (⟨1, 0⟩ : Ell ℝ) (reverse (⟨1, 0⟩ : Ell ℝ) 10 0 0 0).sphi (reverse (⟨1, 0⟩ : Ell ℝ) 10 0 0 0).cphi
+    (reverse (⟨1, 0⟩ : Ell ℝ) 10 0 0 0).slam (reverse (⟨1, 0⟩ : Ell ℝ) 10 0 0 0).clam (reverse (⟨1, 0⟩ : Ell ℝ) 10 0 0 0).h = (0, 0, 0) :=
+  reverse_closes 1 0 10 0 0 0 (by norm_num) (by norm_num) (by rw [not_lt, Real.sqrt_le_iff]; norm_num)
+
+/--
+**(g) in every branch — far field included — the pairs handed to `Rotation` and to `atan2d` are unit vectors**, and
+`cos φ ≥ 0` (seeded C07E dropped the normalisation in the sphere branch)
+-/
+theorem reverse_unit (a f maxrad X Y Z : ℝ) (ha : 0 < a) (hf : f < 1) (hmr : 0 ≤ maxrad) :
+    let rv := reverse (⟨a, f⟩ : Ell ℝ) maxrad X Y Z
+    rv.sphi ^ 2 + rv.cphi ^ 2 = 1 ∧ rv.slam ^ 2 + rv.clam ^ 2 = 1 ∧ 0 ≤ rv.cphi := by
+  intro rv
+  by_cases hmax : maxrad < Real.sqrt (Real.sqrt (X ^ 2 + Y ^ 2) ^ 2 + Z ^ 2)
+  · obtain ⟨h1, h2, h3, _⟩ := reverse_far_facts a f maxrad X Y Z hmr hmax
+    exact ⟨h1, h3, h2⟩
+  · obtain ⟨hm, hsl, hcl⟩ := reverse_facts a f maxrad X Y Z ha hf hmax
+    obtain ⟨hu, _, _⟩ := lon_part X Y
+    refine ⟨hm.unit, ?_, hm.cpos⟩
+    show (reverse (⟨a, f⟩ : Ell ℝ) maxrad X Y Z).slam ^ 2 + (reverse (⟨a, f⟩ : Ell ℝ) maxrad X Y Z).clam ^ 2 = 1
+    rw [hsl, hcl]; exact hu
+
+/-- the matrix returned by `Reverse` is a rotation matrix (orthogonal, determinant `+1`) in every branch -/
+theorem reverseM_frame_isRot (a f maxrad X Y Z : ℝ) (ha : 0 < a) (hf : f < 1) (hmr : 0 ≤ maxrad) :
+    IsRot (reverseM (⟨a, f⟩ : Ell ℝ) maxrad X Y Z).M := by
+  obtain ⟨h1, h2, _⟩ := reverse_unit a f maxrad X Y Z ha hf hmr
+  exact rotation_isRot _ _ _ _ h1 h2
+
+theorem deg_rad (x : ℝ) : x * 180 / Real.pi * Real.pi / 180 = x := by
+  have := Real.pi_ne_zero
+  field_simp
+
+theorem sind_atan2d (s c : ℝ) (h : s ^ 2 + c ^ 2 = 1) : sind (atan2d s c) = s ∧ cosd (atan2d s c) = c := by
+  obtain ⟨h1, h2⟩ := arg_unit s c h
+  constructor
+  · show Real.sin (Complex.arg ⟨c, s⟩ * ((180 : ℕ) : ℝ) / Real.pi * Real.pi / ((180 : ℕ) : ℝ)) = s
+    push_cast; rw [deg_rad]; exact h1
+  · show Real.cos (Complex.arg ⟨c, s⟩ * ((180 : ℕ) : ℝ) / Real.pi * Real.pi / ((180 : ℕ) : ℝ)) = c
+    push_cast; rw [deg_rad]; exact h2
+
+/--
+**(g) the matrix returned by `Reverse` is the east-north-up frame AT THE RETURNED `(lat, lon)`**, in every branch: it
+equals `Rotation(sin lat°, cos lat°, sin lon°, cos lon°)` — the matrix `Forward` returns at that position
+-/
+theorem reverseM_frame_is_enu (a f maxrad X Y Z : ℝ) (ha : 0 < a) (hf : f < 1) (hmr : 0 ≤ maxrad) :
+    let o := reverseM (⟨a, f⟩ : Ell ℝ) maxrad X Y Z
+    o.M = rotation (sind o.lat) (cosd o.lat) (sind o.lon) (cosd o.lon) ∧
+    o.M = (forwardM (⟨a, f⟩ : Ell ℝ) (sind o.lat) (cosd o.lat) (sind o.lon) (cosd o.lon) o.h).2 := by
+  intro o
+  obtain ⟨h1, h2, _⟩ := reverse_unit a f maxrad X Y Z ha hf hmr
+  obtain ⟨e1, e2⟩ := sind_atan2d _ _ h1
+  obtain ⟨e3, e4⟩ := sind_atan2d _ _ h2
+  have : o.M = rotation (sind o.lat) (cosd o.lat) (sind o.lon) (cosd o.lon) := by
+    show rotation _ _ _ _ = rotation (sind (atan2d _ _)) (cosd (atan2d _ _)) (sind (atan2d _ _)) (cosd (atan2d _ _))
+    rw [e1, e2, e3, e4]
+  exact ⟨this, this⟩
+
+/-- **(g) ranges, for every input**: `|lat| ≤ 90`, `−180 < lon ≤ 180` -/
+theorem reverseM_ranges (a f maxrad X Y Z : ℝ) (ha : 0 < a) (hf : f < 1) (hmr : 0 ≤ maxrad) :
+    let o := reverseM (⟨a, f⟩ : Ell ℝ) maxrad X Y Z
+    |o.lat| ≤ 90 ∧ -180 < o.lon ∧ o.lon ≤ 180 := by
+  intro o
+  obtain ⟨_, _, h3⟩ := reverse_unit a f maxrad X Y Z ha hf hmr
+  have hpi := Real.pi_pos
+  set rv := reverse (⟨a, f⟩ : Ell ℝ) maxrad X Y Z with hrv
+  have hlat : o.lat = Complex.arg ⟨rv.cphi, rv.sphi⟩ * 180 / Real.pi := by
+    show Complex.arg ⟨rv.cphi, rv.sphi⟩ * ((180 : ℕ) : ℝ) / Real.pi = _
+    push_cast; rfl
+  have hlon : o.lon = Complex.arg ⟨rv.clam, rv.slam⟩ * 180 / Real.pi := by
+    show Complex.arg ⟨rv.clam, rv.slam⟩ * ((180 : ℕ) : ℝ) / Real.pi = _
+    push_cast; rfl
+  have hA : |Complex.arg ⟨rv.cphi, rv.sphi⟩| ≤ Real.pi / 2 := Complex.abs_arg_le_pi_div_two_iff.mpr h3
+  have hB1 := Complex.neg_pi_lt_arg ⟨rv.clam, rv.slam⟩
+  have hB2 := Complex.arg_le_pi ⟨rv.clam, rv.slam⟩
+  refine ⟨?_, ?_, ?_⟩
+  · rw [hlat, abs_div, abs_mul, abs_of_pos hpi, abs_of_pos (by norm_num : (0:ℝ) < 180), div_le_iff₀ hpi]
+    nlinarith
+  · rw [hlon, lt_div_iff₀ hpi]; nlinarith
+  · rw [hlon, div_le_iff₀ hpi]; nlinarith
+
+/-- **end to end in degrees**: `Forward` at the `(lat, lon, h)` returned by `Reverse` gives back the point (below the
+far-field threshold), and both calls return the same matrix -/
+theorem forwardM_reverseM (a f maxrad X Y Z : ℝ) (ha : 0 < a) (hf : f < 1) (hmr : 0 ≤ maxrad)
+    (hmax : ¬ maxrad < Real.sqrt (X ^ 2 + Y ^ 2 + Z ^ 2)) :
+    let E : Ell ℝ := ⟨a, f⟩
+    let o := reverseM E maxrad X Y Z
+    forwardM E (sind o.lat) (cosd o.lat) (sind o.lon) (cosd o.lon) o.h = ((X, Y, Z), o.M) := by
+  intro E o
+  obtain ⟨h1, h2, _⟩ := reverse_unit a f maxrad X Y Z ha hf hmr
+  obtain ⟨e1, e2⟩ := sind_atan2d _ _ h1
+  obtain ⟨e3, e4⟩ := sind_atan2d _ _ h2
+  have hc := reverse_closes a f maxrad X Y Z ha hf hmax
+  show (forward E (sind (atan2d _ _)) (cosd (atan2d _ _)) (sind (atan2d _ _)) (cosd (atan2d _ _)) _,
+        rotation (sind (atan2d _ _)) (cosd (atan2d _ _)) (sind (atan2d _ _)) (cosd (atan2d _ _))) = _
+  rw [e1, e2, e3, e4]
+  exact Prod.ext hc rfl
+
+/--
+**(e) the far-field branch** (`|P| > maxrad ≥ 0`; the code sets `maxrad = 2a/ε`): the returned height is `|P|`, the
+direction is the geocentric one, and the forward image of the result misses `P` by exactly the surface point, i.e. by at
+most the larger semi-axis `a·max(1, 1−f)` — relative to `|P| > 2a/ε` less than `ε/2·max(1, 1−f)`
+-/
+theorem reverse_farfield_bound (a f maxrad X Y Z : ℝ) (ha : 0 < a) (hf : f < 1) (hmr : 0 ≤ maxrad)
+    (hmax : maxrad < Real.sqrt (X ^ 2 + Y ^ 2 + Z ^ 2)) :
+    let E : Ell ℝ := ⟨a, f⟩
+    let rv := reverse E maxrad X Y Z
+    let F := forward E rv.sphi rv.cphi rv.slam rv.clam rv.h
+    rv.h = Real.sqrt (X ^ 2 + Y ^ 2 + Z ^ 2) ∧
+    (F.1 - X) ^ 2 + (F.2.1 - Y) ^ 2 + (F.2.2 - Z) ^ 2 ≤ (a * max 1 (1 - f)) ^ 2 ∧
+    ((F.1 - X) ^ 2 + (F.2.1 - Y) ^ 2 + (F.2.2 - Z) ^ 2) * maxrad ^ 2 ≤ (a * max 1 (1 - f)) ^ 2 * (X ^ 2 + Y ^ 2 + Z ^ 2) := by
+  intro E rv F
+  rw [← nested_norm] at hmax
+  obtain ⟨hu, _, hl, hh, hx, hy, hz⟩ := reverse_far_facts a f maxrad X Y Z hmr hmax
+  obtain ⟨hN, hA⟩ := primeVertical a f rv.sphi rv.cphi ha hf hu
+  set N := a / Real.sqrt (1 - f * (2 - f) * rv.sphi ^ 2) with hNdef
+  have hF : F = ((N + rv.h) * rv.cphi * rv.clam, (N + rv.h) * rv.cphi * rv.slam, ((1 - f) ^ 2 * N + rv.h) * rv.sphi) :=
+    forward_real a f rv.sphi rv.cphi rv.slam rv.clam rv.h
+  have d1 : F.1 - X = N * rv.cphi * rv.clam := by rw [hF]; linear_combination hx
+  have d2 : F.2.1 - Y = N * rv.cphi * rv.slam := by rw [hF]; linear_combination hy
+  have d3 : F.2.2 - Z = (1 - f) ^ 2 * N * rv.sphi := by rw [hF]; linear_combination hz
+  have hb := surface_norm_le a f N rv.sphi rv.cphi hf hA
+  have hsum : (F.1 - X) ^ 2 + (F.2.1 - Y) ^ 2 + (F.2.2 - Z) ^ 2 = (N * rv.cphi) ^ 2 + ((1 - f) ^ 2 * N * rv.sphi) ^ 2 := by
+    rw [d1, d2, d3]; linear_combination ((N * rv.cphi) ^ 2) * hl
+  refine ⟨hh, by rw [hsum]; exact hb, ?_⟩
+  rw [hsum]
+  have hP : maxrad ^ 2 ≤ X ^ 2 + Y ^ 2 + Z ^ 2 := by
+    rw [nested_norm] at hmax
+    have h0 : 0 ≤ X ^ 2 + Y ^ 2 + Z ^ 2 := by positivity
+    have := Real.sq_sqrt h0
+    nlinarith [Real.sqrt_nonneg (X ^ 2 + Y ^ 2 + Z ^ 2)]
+  calc ((N * rv.cphi) ^ 2 + ((1 - f) ^ 2 * N * rv.sphi) ^ 2) * maxrad ^ 2
+      ≤ (a * max 1 (1 - f)) ^ 2 * maxrad ^ 2 := mul_le_mul_of_nonneg_right hb (sq_nonneg _)
+    _ ≤ (a * max 1 (1 - f)) ^ 2 * (X ^ 2 + Y ^ 2 + Z ^ 2) := mul_le_mul_of_nonneg_left hP (sq_nonneg _)
+
+/-- non-vacuity: a point beyond `maxrad` -/
+example : (10:ℝ) < Real.sqrt (100 ^ 2 + 0 ^ 2 + 0 ^ 2) := by
+  rw [Real.lt_sqrt (by norm_num)]; norm_num
+
+/--
+**(f) the height of least magnitude, forward form.**  If the point `forward(φ, λ, h)` lies on the same side of the rotation
+axis and of the equatorial plane as its foot point (`N + h ≥ 0` and `(1−f)²N + h ≥ 0`, `N = a/√(1 − e² sin²φ)`), then no
+point of the ellipsoid is closer to it than `|h|` (and the foot point `forward(φ, λ, 0)` is at distance exactly `|h|`,
+`forward_on_normal`): `h` is the signed distance to the ellipsoid.
+-/
+theorem forward_height_least (a f s c sl cl h x y z : ℝ) (ha : 0 < a) (hf : f < 1)
+    (hu : s ^ 2 + c ^ 2 = 1) (hl : sl ^ 2 + cl ^ 2 = 1)
+    (hsR : 0 ≤ a / Real.sqrt (1 - f * (2 - f) * s ^ 2) + h)
+    (hsZ : 0 ≤ (1 - f) ^ 2 * (a / Real.sqrt (1 - f * (2 - f) * s ^ 2)) + h)
+    (hQ : (x ^ 2 + y ^ 2) / a ^ 2 + z ^ 2 / (a * (1 - f)) ^ 2 = 1) :
+    let P := forward (⟨a, f⟩ : Ell ℝ) s c sl cl h
+    h ^ 2 ≤ (P.1 - x) ^ 2 + (P.2.1 - y) ^ 2 + (P.2.2 - z) ^ 2 := by
+  intro P
+  obtain ⟨hN, hA⟩ := primeVertical a f s c ha hf hu
+  have hm : 0 < (1 - f) ^ 2 := pow_pos (by linarith) 2
+  have h1f : (1 - f) ≠ 0 := by linarith
+  have hQ' : (x ^ 2 + y ^ 2) * (1 - f) ^ 2 + z ^ 2 = a ^ 2 * (1 - f) ^ 2 := by
+    have := hQ; field_simp at this; linarith
+  have hP : P = _ := forward_real a f s c sl cl h
+  rw [hP]
+  exact foot_nearest a ((1 - f) ^ 2) _ s c sl cl h x y z hm hN hu hl hA hQ' hsR hsZ
+
+/--
+**(f) `Reverse` returns the height of least magnitude** — in every branch below the far-field threshold, inside the
+singular disc / segment included: no point `(x, y, z)` of the ellipsoid is closer to `(X, Y, Z)` than `|h|`, and the foot
+point (the forward image of the returned `(φ, λ)` at height 0, which lies on the ellipsoid) is at distance exactly `|h|`.
+-/
+theorem reverse_height_least (a f maxrad X Y Z : ℝ) (ha : 0 < a) (hf : f < 1)
+    (hmax : ¬ maxrad < Real.sqrt (X ^ 2 + Y ^ 2 + Z ^ 2)) :
+    let E : Ell ℝ := ⟨a, f⟩
+    let rv := reverse E maxrad X Y Z
+    let Q0 := forward E rv.sphi rv.cphi rv.slam rv.clam 0
+    (∀ x y z : ℝ, (x ^ 2 + y ^ 2) / a ^ 2 + z ^ 2 / (a * (1 - f)) ^ 2 = 1 →
+      rv.h ^ 2 ≤ (X - x) ^ 2 + (Y - y) ^ 2 + (Z - z) ^ 2) ∧
+    (X - Q0.1) ^ 2 + (Y - Q0.2.1) ^ 2 + (Z - Q0.2.2) ^ 2 = rv.h ^ 2 ∧
+    (Q0.1 ^ 2 + Q0.2.1 ^ 2) / a ^ 2 + Q0.2.2 ^ 2 / (a * (1 - f)) ^ 2 = 1 := by
+  intro E rv Q0
+  have hc := reverse_closes a f maxrad X Y Z ha hf hmax
+  rw [← nested_norm] at hmax
+  obtain ⟨hm, hsl, hcl⟩ := reverse_facts a f maxrad X Y Z ha hf hmax
+  obtain ⟨hul, _, _⟩ := lon_part X Y
+  have hl : rv.slam ^ 2 + rv.clam ^ 2 = 1 := by
+    show (reverse (⟨a, f⟩ : Ell ℝ) maxrad X Y Z).slam ^ 2 + (reverse (⟨a, f⟩ : Ell ℝ) maxrad X Y Z).clam ^ 2 = 1
+    rw [hsl, hcl]; exact hul
+  refine ⟨?_, ?_, ?_⟩
+  · intro x y z hQ
+    have := forward_height_least a f rv.sphi rv.cphi rv.slam rv.clam rv.h x y z ha hf hm.unit hl hm.sideR hm.sideZ hQ
+    simp only [] at this
+    have hc' : forward (⟨a, f⟩ : Ell ℝ) rv.sphi rv.cphi rv.slam rv.clam rv.h = (X, Y, Z) := hc
+    rw [hc'] at this
+    exact this
+  · have hn := forward_on_normal (⟨a, f⟩ : Ell ℝ) rv.sphi rv.cphi rv.slam rv.clam rv.h
+    have hc' : forward (⟨a, f⟩ : Ell ℝ) rv.sphi rv.cphi rv.slam rv.clam rv.h = (X, Y, Z) := hc
+    rw [hc'] at hn
+    have hX : X - Q0.1 = rv.h * (rv.cphi * rv.clam) := by have := congrArg Prod.fst hn; simp only [] at this; rw [this]; ring
+    have hY : Y - Q0.2.1 = rv.h * (rv.cphi * rv.slam) := by have := congrArg (fun p => p.2.1) hn; simp only [] at this; rw [this]; ring
+    have hZ : Z - Q0.2.2 = rv.h * rv.sphi := by have := congrArg (fun p => p.2.2) hn; simp only [] at this; rw [this]; ring
+    rw [hX, hY, hZ]
+    linear_combination (rv.h ^ 2 * rv.cphi ^ 2) * hl + (rv.h ^ 2) * hm.unit
+  · have hpos : 0 < 1 - f * (2 - f) * rv.sphi ^ 2 := by
+      have := hm.unit
+      have hmm : 0 < (1 - f) ^ 2 := pow_pos (by linarith) 2
+      have e : 1 - f * (2 - f) * rv.sphi ^ 2 = rv.cphi ^ 2 + (1 - f) ^ 2 * rv.sphi ^ 2 := by linear_combination (-1 : ℝ) * this
+      rw [e]
+      by_cases hs : rv.sphi = 0
+      · have : rv.cphi ^ 2 = 1 := by rw [hs] at this; linarith
+        rw [hs, this]; norm_num
+      · have : 0 < (1 - f) ^ 2 * rv.sphi ^ 2 := by positivity
+        nlinarith [sq_nonneg rv.cphi]
+    exact forward_on_ellipsoid (⟨a, f⟩ : Ell ℝ) rv.sphi rv.cphi rv.slam rv.clam hm.unit hl ha.ne' (by linarith) hpos
 
 end GeoVerif.Props.C07
